@@ -2,16 +2,19 @@ package checks
 
 import (
 	"fmt"
+	"os"
 	"strings"
 	"testing"
 	"time"
 
 	"github.com/bitcoin-sv/block-headers-service/internal/chaincfg"
 	"github.com/bitcoin-sv/block-headers-service/internal/chaincfg/chainhash"
+	"github.com/bitcoin-sv/block-headers-service/internal/wire"
 	"github.com/bitcoin-sv/block-headers-service/verifharness/model"
 	"github.com/bitcoin-sv/block-headers-service/verifharness/simnet"
 	"github.com/bitcoin-sv/block-headers-service/verifharness/stack"
 	"github.com/bitcoin-sv/block-headers-service/verifharness/stats"
+	"github.com/rs/zerolog"
 	"pgregory.net/rapid"
 )
 
@@ -124,10 +127,13 @@ func runC07Once(p *C07Plan, long bool) (*stats.Case, error) {
 	}()
 	for i := 0; i < p.Honest; i++ {
 		start := honest
-		if p.BadFirst {
-			start = nil // the honest nodes know nothing yet: the bad node is the only sync candidate
+		hs := simnet.NodeSpec{Pver: 70015, Cap: p.HonestCap}
+		if p.BadFirst && p.Engine == "legacy" {
+			// the honest nodes are not sync candidates yet (no NODE_NETWORK bit): the bad node is the only one the
+			// service can sync from; they reconnect as full nodes after the offence
+			hs.Services = uint64(wire.SFNodeBloom)
 		}
-		n, err := simnet.NewNode(i, simnet.NodeSpec{Pver: 70015, Cap: p.HonestCap}, u.Genesis, start)
+		n, err := simnet.NewNode(i, hs, u.Genesis, start)
 		if err != nil {
 			return nil, fmt.Errorf("infra: %w", err)
 		}
@@ -155,8 +161,15 @@ func runC07Once(p *C07Plan, long bool) (*stats.Case, error) {
 	var s *stack.Stack
 	var srv simnet.P2PServer
 	ban := time.Duration(p.BanMs) * time.Millisecond
+	sopts := stack.Options{Dir: c06Dir}
+	if lp := os.Getenv("VERIF_DEBUG_LOG"); lp != "" {
+		if f, ferr := os.Create(lp); ferr == nil {
+			l := zerolog.New(f).With().Timestamp().Logger()
+			sopts.Logger = &l
+		}
+	}
 	if p.Engine == "legacy" {
-		s, srv, err = simnet.StartLegacy(stack.Options{Dir: c06Dir}, p.DisableCP, ban)
+		s, srv, err = simnet.StartLegacy(sopts, p.DisableCP, ban)
 		if err != nil {
 			return nil, fmt.Errorf("infra: %w", err)
 		}
@@ -170,7 +183,7 @@ func runC07Once(p *C07Plan, long bool) (*stats.Case, error) {
 			s.Close()
 		}()
 	} else {
-		s, err = stack.New(stack.Options{Dir: c06Dir})
+		s, err = stack.New(sopts)
 		if err != nil {
 			return nil, fmt.Errorf("infra: %w", err)
 		}
@@ -269,13 +282,17 @@ func runC07Once(p *C07Plan, long bool) (*stats.Case, error) {
 		}
 		defer simnet.SafeDisconnect(ep2)
 	}
+	if p.BadFirst && p.Engine == "legacy" {
+		for i := 0; i < p.Honest; i++ {
+			nodes[i].SetServices(uint64(wire.SFNodeNetwork))
+			nodes[i].DropAll()
+		}
+	}
 	if p.FinalAnn {
 		time.Sleep(200 * time.Millisecond)
 		ext := u.Extend(target, 1, 0, 0x1d00ffff)
 		for i := 0; i < p.Honest; i++ {
-			if p.BadFirst && p.Engine == "legacy" {
-				nodes[i].MineWhenReady(ext, true, 5*time.Second) // the honest nodes learn the whole chain now and announce it
-			} else if p.Engine == "exp" && i > 0 {
+			if p.Engine == "exp" && i > 0 {
 				nodes[i].Mine(ext[len(target):], false) // the experimental engine talks to node 0 only
 			} else {
 				nodes[i].MineWhenReady(ext[len(target):], true, 5*time.Second)
@@ -361,34 +378,45 @@ func genC07(t *rapid.T) *C07Plan {
 	case "checkpoint":
 		c := rapid.IntRange(3, p.HonestLen-2).Draw(t, "cp")
 		p.Checkpoints = []int{c}
-		if rapid.Bool().Draw(t, "cp2") && c+2 < p.HonestLen {
-			p.Checkpoints = append(p.Checkpoints, rapid.IntRange(c+1, p.HonestLen-1).Draw(t, "cpb"))
-		}
 		p.ForkAt = c - rapid.IntRange(1, min(c, 4)).Draw(t, "below")
 		p.BadLen = c - p.ForkAt + rapid.IntRange(0, 2).Draw(t, "beyond")
 		p.BadCap = rapid.SampledFrom([]int{2000, 2000, 2, 3}).Draw(t, "cap")
 		// the contradiction is met while that checkpoint is still ahead: the bad node is the first one the service syncs from
 		p.BadFirst = true
-		if len(p.Checkpoints) == 2 && p.Checkpoints[1] >= p.Checkpoints[0]+2 && rapid.Bool().Draw(t, "between") {
-			// variant B: the bad branch matches the first checkpoint and contradicts the second one; the bad node ignores
-			// the stop hash and its batches end between the two, so the matching header sits in the middle of a batch
-			c1, c2 := p.Checkpoints[0], p.Checkpoints[1]
-			p.ForkAt = rapid.IntRange(c1, c2-1).Draw(t, "forkbetween")
-			p.BadLen = c2 - p.ForkAt + rapid.IntRange(0, 2).Draw(t, "beyond2")
-			p.BadCap = rapid.IntRange(c1+1, c2-1+1).Draw(t, "capbetween")
-			if p.BadCap >= c2 {
-				p.BadCap = c2 - 1
+		// The contradicted checkpoint is the last one of the list. A bad branch that ends below a later checkpoint
+		// leaves the legacy manager with a sync peer that has nothing more to give while the chain is "not current"
+		// (announcements of other peers are ignored below the last checkpoint): that is C06's lagging-sync-peer class,
+		// which needs the manager's rotation timer; a bad branch that reaches a later checkpoint as well is the open
+		// finding C07-checkpoint-contradiction-stored-before-verified.
+		switch rapid.SampledFrom([]string{"single", "below", "between"}).Draw(t, "cps") {
+		case "below":
+			if p.ForkAt >= 1 {
+				p.Checkpoints = []int{rapid.IntRange(1, p.ForkAt).Draw(t, "cpa"), c}
 			}
-			if p.BadCap <= c1 {
-				p.BadCap = c1 + 1
+		case "between":
+			if c+2 <= p.HonestLen-1 {
+				// variant B: the bad branch matches the first checkpoint and contradicts the second one; the bad node ignores
+				// the stop hash and its batches end between the two, so the matching header sits in the middle of a batch
+				c1, c2 := c, rapid.IntRange(c+2, p.HonestLen-1).Draw(t, "cpb")
+				p.Checkpoints = []int{c1, c2}
+				p.ForkAt = rapid.IntRange(c1, c2-1).Draw(t, "forkbetween")
+				p.BadLen = c2 - p.ForkAt + rapid.IntRange(0, 2).Draw(t, "beyond2")
+				p.BadCap = rapid.IntRange(c1+1, c2-1+1).Draw(t, "capbetween")
+				if p.BadCap >= c2 {
+					p.BadCap = c2 - 1
+				}
+				if p.BadCap <= c1 {
+					p.BadCap = c1 + 1
+				}
+				p.IgnoreStop = true
+				p.VariantB = true
 			}
-			p.IgnoreStop = true
-			p.VariantB = true
 		}
-		p.Strict = p.Engine == "legacy" && !p.VariantB
-		if p.Engine == "legacy" && !p.VariantB {
-			p.Checkpoints = p.Checkpoints[:1] // see DESIGN: with further checkpoints ahead the legacy manager ignores late-coming candidates
+		// the honest chain stays strictly heavier than the bad branch (equal work would leave the first-seen branch as tip)
+		if over := p.ForkAt + p.BadLen - (p.HonestLen - 1); over > 0 {
+			p.BadLen -= over
 		}
+		p.Strict = true
 	}
 	return p
 }
@@ -402,7 +430,7 @@ func c07Known(p *C07Plan, err error) string {
 	if !p.BadFirst && strings.Contains(msg, "was not disconnected") {
 		return "C07-checkpoint-contradiction-after-checkpoint-passed"
 	}
-	if p.BadFirst && p.Strict && (p.Engine == "exp" || len(p.Checkpoints) > 1) && (strings.Contains(msg, "did not converge on the honest chain") || strings.Contains(msg, "longest chain has")) {
+	if p.BadFirst && p.Engine == "legacy" && len(p.Checkpoints) > 1 && !p.VariantB && p.ForkAt+p.BadLen >= p.Checkpoints[1] && strings.Contains(msg, "was not disconnected") {
 		return "C07-checkpoint-contradiction-stored-before-verified"
 	}
 	return ""
